@@ -10,6 +10,7 @@ package jrpc2
 import (
 	"context"
 	"errors"
+	"sync"
 
 	"github.com/holiman/uint256"
 	"github.com/indexsupply/shovel/eth"
@@ -134,9 +135,13 @@ func zzBlockResult(b *eth.Block, want uint64) {
 }
 
 // zzDo replaces (*Client).do.
+var zzMu sync.Mutex // the stub's own counters are shared by concurrent callers
+
 func zzDo(c *Client, ctx context.Context, url string, dest, req any) error {
+	zzMu.Lock()
 	call := zzCalls
 	zzCalls++
+	zzMu.Unlock()
 	if zzMode == 0 && !zzNoErrors {
 		if zzvrf.Bool("transport-error") {
 			return errors.New("transport")
@@ -151,7 +156,9 @@ func zzDo(c *Client, ctx context.Context, url string, dest, req any) error {
 	}
 	switch dest.(type) {
 	case *[]blockResp, *[]headerResp:
+		zzMu.Lock()
 		zzBlockFetches++
+		zzMu.Unlock()
 	}
 	switch d := dest.(type) {
 	case *[]blockResp:
@@ -213,12 +220,12 @@ func zzDo(c *Client, ctx context.Context, url string, dest, req any) error {
 				x := &r.Result[j]
 				if zzMode == 1 && zzNode != nil {
 					n := zzNode
-					x.BlockNum, x.TxIdx, x.BlockHash = eth.Uint64(zzStart+uint64(i)), 0, n.BlockHash
-					x.TxHash, x.TxType, x.TxFrom, x.TxTo = n.TxHash, eth.Byte(n.TxType), n.TxFrom, n.TxTo
+					x.BlockNum, x.TxIdx, x.BlockHash = eth.Uint64(zzStart+uint64(i)), 0, zzCp(n.BlockHash)
+					x.TxHash, x.TxType, x.TxFrom, x.TxTo = zzCp(n.TxHash), eth.Byte(n.TxType), zzCp(n.TxFrom), zzCp(n.TxTo)
 					x.Status, x.GasUsed = eth.Byte(n.TxStatus), eth.Uint64(n.TxGasUsed)
 					x.EffectiveGasPrice = uint256.Int{n.TxEffGasPrice, 0, 0, 0}
-					x.ContractAddress = n.TxContractAddr
-					x.Logs = eth.Logs{{Idx: eth.Uint64(n.LogIdx), Address: n.LogAddr, Topics: []eth.Bytes{n.LogTopic0}, Data: n.LogData}}
+					x.ContractAddress = zzCp(n.TxContractAddr)
+					x.Logs = eth.Logs{{Idx: eth.Uint64(n.LogIdx), Address: zzCp(n.LogAddr), Topics: []eth.Bytes{zzCp(n.LogTopic0)}, Data: zzCp(n.LogData)}}
 					continue
 				}
 				if zzMode == 1 {
@@ -259,12 +266,12 @@ func zzDo(c *Client, ctx context.Context, url string, dest, req any) error {
 			nd := zzNode
 			l.Result = nil
 			if zzCurFilter == 0 || zzCurFilter == 2 {
-				l.Result = append(l.Result, logResult{Log: &eth.Log{Idx: eth.Uint64(nd.LogIdx), Address: nd.LogAddr, Topics: []eth.Bytes{nd.LogTopic0}, Data: nd.LogData},
-					BlockNum: eth.Uint64(zzStart), TxIdx: 0, BlockHash: nd.BlockHash, TxHash: nd.TxHash})
+				l.Result = append(l.Result, logResult{Log: &eth.Log{Idx: eth.Uint64(nd.LogIdx), Address: zzCp(nd.LogAddr), Topics: []eth.Bytes{zzCp(nd.LogTopic0)}, Data: zzCp(nd.LogData)},
+					BlockNum: eth.Uint64(zzStart), TxIdx: 0, BlockHash: zzCp(nd.BlockHash), TxHash: zzCp(nd.TxHash)})
 			}
 			if zzCurFilter == 1 || zzCurFilter == 2 {
-				l.Result = append(l.Result, logResult{Log: &eth.Log{Idx: eth.Uint64(nd.LogIdx + 1), Address: nd.LogAddrB, Topics: []eth.Bytes{nd.LogTopic0}, Data: nd.LogData},
-					BlockNum: eth.Uint64(zzStart), TxIdx: 0, BlockHash: nd.BlockHash, TxHash: nd.TxHash})
+				l.Result = append(l.Result, logResult{Log: &eth.Log{Idx: eth.Uint64(nd.LogIdx + 1), Address: zzCp(nd.LogAddrB), Topics: []eth.Bytes{zzCp(nd.LogTopic0)}, Data: zzCp(nd.LogData)},
+					BlockNum: eth.Uint64(zzStart), TxIdx: 0, BlockHash: zzCp(nd.BlockHash), TxHash: zzCp(nd.TxHash)})
 			}
 			n = 0
 		} else {
@@ -274,8 +281,8 @@ func zzDo(c *Client, ctx context.Context, url string, dest, req any) error {
 			x := &l.Result[j]
 			if zzMode == 1 && zzNode != nil {
 				n := zzNode
-				x.Log = &eth.Log{Idx: eth.Uint64(n.LogIdx), Address: n.LogAddr, Topics: []eth.Bytes{n.LogTopic0}, Data: n.LogData}
-				x.BlockNum, x.TxIdx, x.BlockHash, x.TxHash = eth.Uint64(zzStart), 0, n.BlockHash, n.TxHash
+				x.Log = &eth.Log{Idx: eth.Uint64(n.LogIdx), Address: zzCp(n.LogAddr), Topics: []eth.Bytes{zzCp(n.LogTopic0)}, Data: zzCp(n.LogData)}
+				x.BlockNum, x.TxIdx, x.BlockHash, x.TxHash = eth.Uint64(zzStart), 0, zzCp(n.BlockHash), zzCp(n.TxHash)
 				continue
 			}
 			x.Log = &eth.Log{
@@ -304,8 +311,8 @@ func zzDo(c *Client, ctx context.Context, url string, dest, req any) error {
 			x := &d.Result[j]
 			if zzMode == 1 && zzNode != nil {
 				n := zzNode
-				x.BlockNum, x.TxIdx, x.BlockHash, x.TxHash = zzStart+uint64(zzTraceCall), 0, n.BlockHash, n.TxHash
-				x.Action.From, x.Action.To, x.Action.CallType = n.TraceFrom, n.TraceTo, "call"
+				x.BlockNum, x.TxIdx, x.BlockHash, x.TxHash = zzStart+uint64(zzTraceCall)%zzLimit, 0, zzCp(n.BlockHash), zzCp(n.TxHash)
+				x.Action.From, x.Action.To, x.Action.CallType = zzCp(n.TraceFrom), zzCp(n.TraceTo), "call"
 				x.Action.Value = uint256.Int{n.TraceValue, 0, 0, 0}
 				continue
 			}
@@ -325,7 +332,9 @@ func zzDo(c *Client, ctx context.Context, url string, dest, req any) error {
 			x.Action.Value = uint256.Int{zzvrf.U64("trace.action.value"), 0, 0, 0}
 			zzGhost = append(zzGhost, zzItem{kind: 't', blockNum: x.BlockNum, txIdx: x.TxIdx, addr: x.Action.From})
 		}
+		zzMu.Lock()
 		zzTraceCall++
+		zzMu.Unlock()
 	default:
 		panic("zzDo: unknown destination type")
 	}
